@@ -2,7 +2,11 @@
    full noise covariance; additive UKF as spec) on the case file given on stdin.
    Sys.argv.(1) = the implementation's output file: the SVD factors A<i> of the
    component covariances (the model's square-root oracle; the plug-in checks
-   A A^T = P).  Operands: see cpp/h_C05.cpp. *)
+   A A^T = P).  Operands: see cpp/h_C05.cpp.
+   kind "sukf_seq": the model is STATELESS — every call of the sequence is the same
+   pure function applied to that call's inputs (operands with suffix _<t>, outputs
+   with prefix t<t>_); that the implementation's t-th call agrees with it is the
+   no-stale-state property. *)
 let () =
   let cases = Caseio.read_records "case" stdin in
   let impl =
@@ -13,85 +17,97 @@ let () =
     end else [] in
   let impl_tbl = Hashtbl.create 1024 in
   List.iter (fun (r : Caseio.case) -> Hashtbl.replace impl_tbl r.id r) impl;
+  (* one call: operands carry the suffix suf, outputs the prefix tp *)
+  let one_call (c : Caseio.case) (suf : string) (tp : string) (second : bool) alpha beta kappa s =
+    let gm name = Caseio.get_mat c (name ^ suf) in
+    let h = gm "H" and g1 = gm "G" and g2 = gm "G2" in
+    let b = gm "b" and g = gm "g" and y = gm "y" in
+    let rfull = gm "Rfull" in
+    let means = gm "means" and covs = gm "covs" and weights = gm "weights" in
+    let n = Array.length means and m = Array.length h in
+    let kind = Caseio.get_int c ("hkind" ^ suf) in
+    let comps = mat_cols means in
+    let pcomps =
+      List.init comps (fun i -> (lmx_of_mat (mat_col means i), lmx_of_mat (mat_block_cols covs (i * n) n))) in
+    let pred = (pcomps, List.init comps (fun i -> ob weights.(i).(0))) in
+    (* previous content of the output object, as the harness fills it *)
+    let filler v r cc = lmx_of_mat (Array.make_matrix r cc v) in
+    let corr_prev = (List.init comps (fun _ -> (filler 7.25 n 1, filler (-3.5) n n)), List.init comps (fun _ -> ob 0.125)) in
+    (* square-root oracle: the factor the implementation computed for this covariance *)
+    let table =
+      match Hashtbl.find_opt impl_tbl c.id with
+      | None -> []
+      | Some r ->
+          List.init comps (fun i ->
+              (List.map (List.map fl) (snd (List.nth pcomps i)),
+               lmx_of_mat (Caseio.get_mat r (Printf.sprintf "%sA%d" tp i)))) in
+    let sq _ (p : Obj.t list list) : Obj.t list list =
+      let key = List.map (List.map fl) p in
+      match List.assoc_opt key table with
+      | Some a -> a
+      | None -> failwith "drv_C05: no square-root factor for this covariance" in
+    let nn = nat_of_int n and nm = nat_of_int m and ns = nat_of_int s and nk = nat_of_int kind in
+    let lh = lmx_of_mat h and lg1 = lmx_of_mat g1 and lg2 = lmx_of_mat g2 in
+    let lb = lmx_of_mat b and lg = lmx_of_mat g and ly = lmx_of_mat y in
+    let run pre0 reduced r =
+      let pre = tp ^ pre0 in
+      let ((ocomps, ow), mem) =
+        c05_sukf fops sq nn nm ns nk lh lg1 lg2 lb lg ly reduced (lmx_of_mat r) alpha beta kappa pred corr_prev in
+      Caseio.out_int (pre ^ "components") (List.length ocomps);
+      List.iteri
+        (fun i (mean, cov) ->
+          Caseio.out_mat (Printf.sprintf "%smean%d" pre i) (mat_of_lmx mean);
+          Caseio.out_mat (Printf.sprintf "%scov%d" pre i) (mat_of_lmx cov))
+        ocomps;
+      Caseio.out_mat (pre ^ "weights") (Array.of_list (List.map (fun x -> [| fl x |]) ow));
+      (match mem with
+       | None -> Caseio.out_int (pre ^ "lik_valid") 0
+       | Some outs ->
+           Caseio.out_int (pre ^ "lik_valid") 1;
+           List.iteri
+             (fun i ((innov, ymat), lik) ->
+               Caseio.out_mat (Printf.sprintf "%sinnov%d" pre i) (mat_of_lmx innov);
+               Caseio.out_mat (Printf.sprintf "%sY%d" pre i) (mat_of_lmx ymat);
+               Caseio.out_num (Printf.sprintf "%slik%d" pre i) (fl lik))
+             outs);
+      (* single cases, the harness' second call: the model then reports a measurement of size m + 1 *)
+      if second && s >= 2 && m mod s = 0 then begin
+        let ((ocomps2, ow2), mem2) =
+          c05_sukf fops sq nn (nat_of_int (m + 1)) ns nk lh lg1 lg2 lb lg ly reduced (lmx_of_mat r) alpha beta kappa pred corr_prev in
+        Caseio.out_int (pre ^ "2_lik_valid") (match mem2 with None -> 0 | Some _ -> 1);
+        let same = List.map (fun (a, b) -> (List.map (List.map fl) a, List.map (List.map fl) b)) in
+        Caseio.out_int (pre ^ "2_out_equals_pred")
+          (if same ocomps2 = same (fst pred) && List.map fl ow2 = List.map fl (snd pred) then 1 else 0)
+      end
+    in
+    if Caseio.has c ("Rblock" ^ suf) then run "r_" true (gm "Rblock");
+    run "f_" false rfull;
+    let spec = c05_ukf fops sq nn nm nk lh lg1 lg2 lb lg ly (lmx_of_mat rfull) alpha beta kappa pcomps in
+    List.iteri
+      (fun i ((((mean, cov), innov), pyy), lik) ->
+        Caseio.out_mat (Printf.sprintf "%su_mean%d" tp i) (mat_of_lmx mean);
+        Caseio.out_mat (Printf.sprintf "%su_cov%d" tp i) (mat_of_lmx cov);
+        Caseio.out_mat (Printf.sprintf "%su_Pyy%d" tp i) (mat_of_lmx pyy);
+        Caseio.out_num (Printf.sprintf "%su_lik%d" tp i) (fl lik))
+      spec
+  in
   List.iter
     (fun (c : Caseio.case) ->
-      let h = Caseio.get_mat c "H" and g1 = Caseio.get_mat c "G" and g2 = Caseio.get_mat c "G2" in
-      let b = Caseio.get_mat c "b" and g = Caseio.get_mat c "g" and y = Caseio.get_mat c "y" in
-      let rfull = Caseio.get_mat c "Rfull" in
       let params = Caseio.get_mat c "params" in
       let alpha = ob params.(0).(0) and beta = ob params.(0).(1) and kappa = ob params.(0).(2) in
-      let means = Caseio.get_mat c "means" and covs = Caseio.get_mat c "covs" in
-      let weights = Caseio.get_mat c "weights" in
-      let n = Array.length means and m = Array.length h in
-      let s = Caseio.get_int c "s" and kind = Caseio.get_int c "hkind" in
-      let comps = mat_cols means in
-      let pcomps =
-        List.init comps (fun i -> (lmx_of_mat (mat_col means i), lmx_of_mat (mat_block_cols covs (i * n) n))) in
-      let pred = (pcomps, List.init comps (fun i -> ob weights.(i).(0))) in
-      (* previous content of the output object, as the harness fills it *)
-      let filler v r cc = lmx_of_mat (Array.make_matrix r cc v) in
-      let corr_prev = (List.init comps (fun _ -> (filler 7.25 n 1, filler (-3.5) n n)), List.init comps (fun _ -> ob 0.125)) in
-      (* square-root oracle: the factor the implementation computed for this covariance *)
-      let table =
-        match Hashtbl.find_opt impl_tbl c.id with
-        | None -> []
-        | Some r ->
-            List.init comps (fun i ->
-                (List.map (List.map fl) (snd (List.nth pcomps i)),
-                 lmx_of_mat (Caseio.get_mat r (Printf.sprintf "A%d" i)))) in
-      let sq _ (p : Obj.t list list) : Obj.t list list =
-        let key = List.map (List.map fl) p in
-        match List.assoc_opt key table with
-        | Some a -> a
-        | None -> failwith "drv_C05: no square-root factor for this covariance" in
-      let nn = nat_of_int n and nm = nat_of_int m and ns = nat_of_int s and nk = nat_of_int kind in
-      let lh = lmx_of_mat h and lg1 = lmx_of_mat g1 and lg2 = lmx_of_mat g2 in
-      let lb = lmx_of_mat b and lg = lmx_of_mat g and ly = lmx_of_mat y in
+      let s = Caseio.get_int c "s" in
+      let seq = c.kind = "sukf_seq" in
+      let n = Array.length (Caseio.get_mat c (if seq then "means_1" else "means")) in
       Caseio.out_begin c.id;
-      let ((((wm0, wmi), wc0), wci), cc) = c05_weights fops nn alpha beta kappa in
+      let ((((wm0, wmi), wc0), wci), cc) = c05_weights fops (nat_of_int n) alpha beta kappa in
       let l = 2 * n + 1 in
       Caseio.out_mat "wm" (Array.init l (fun j -> [| if j = 0 then fl wm0 else fl wmi |]));
       Caseio.out_mat "wc" (Array.init l (fun j -> [| if j = 0 then fl wc0 else fl wci |]));
       Caseio.out_num "c" (fl cc);
-      let run pre reduced r =
-        let ((ocomps, ow), mem) =
-          c05_sukf fops sq nn nm ns nk lh lg1 lg2 lb lg ly reduced (lmx_of_mat r) alpha beta kappa pred corr_prev in
-        Caseio.out_int (pre ^ "components") (List.length ocomps);
-        List.iteri
-          (fun i (mean, cov) ->
-            Caseio.out_mat (Printf.sprintf "%smean%d" pre i) (mat_of_lmx mean);
-            Caseio.out_mat (Printf.sprintf "%scov%d" pre i) (mat_of_lmx cov))
-          ocomps;
-        Caseio.out_mat (pre ^ "weights") (Array.of_list (List.map (fun x -> [| fl x |]) ow));
-        (match mem with
-         | None -> Caseio.out_int (pre ^ "lik_valid") 0
-         | Some outs ->
-             Caseio.out_int (pre ^ "lik_valid") 1;
-             List.iteri
-               (fun i ((innov, ymat), lik) ->
-                 Caseio.out_mat (Printf.sprintf "%sinnov%d" pre i) (mat_of_lmx innov);
-                 Caseio.out_mat (Printf.sprintf "%sY%d" pre i) (mat_of_lmx ymat);
-                 Caseio.out_num (Printf.sprintf "%slik%d" pre i) (fl lik))
-               outs);
-        (* the harness' second step: the model then reports a measurement of size m + 1 *)
-        if s >= 2 && m mod s = 0 then begin
-          let ((ocomps2, ow2), mem2) =
-            c05_sukf fops sq nn (nat_of_int (m + 1)) ns nk lh lg1 lg2 lb lg ly reduced (lmx_of_mat r) alpha beta kappa pred corr_prev in
-          Caseio.out_int (pre ^ "2_lik_valid") (match mem2 with None -> 0 | Some _ -> 1);
-          let same = List.map (fun (a, b) -> (List.map (List.map fl) a, List.map (List.map fl) b)) in
-          Caseio.out_int (pre ^ "2_out_equals_pred")
-            (if same ocomps2 = same (fst pred) && List.map fl ow2 = List.map fl (snd pred) then 1 else 0)
-        end
-      in
-      if Caseio.has c "Rblock" then run "r_" true (Caseio.get_mat c "Rblock");
-      run "f_" false rfull;
-      let spec = c05_ukf fops sq nn nm nk lh lg1 lg2 lb lg ly (lmx_of_mat rfull) alpha beta kappa pcomps in
-      List.iteri
-        (fun i ((((mean, cov), innov), pyy), lik) ->
-          Caseio.out_mat (Printf.sprintf "u_mean%d" i) (mat_of_lmx mean);
-          Caseio.out_mat (Printf.sprintf "u_cov%d" i) (mat_of_lmx cov);
-          Caseio.out_mat (Printf.sprintf "u_Pyy%d" i) (mat_of_lmx pyy);
-          Caseio.out_num (Printf.sprintf "u_lik%d" i) (fl lik))
-        spec;
+      if seq then
+        for t = 1 to Caseio.get_int c "steps" do
+          one_call c (Printf.sprintf "_%d" t) (Printf.sprintf "t%d_" t) false alpha beta kappa s
+        done
+      else one_call c "" "" true alpha beta kappa s;
       Caseio.out_end ())
     cases
